@@ -139,6 +139,35 @@ def rnd_param(rng):
             return b
 
 
+NAN_BITS = [0x7FF8000000000000, 0xFFF8000000000000, 0x7FF8000000000001, 0x7FF4000000000000,
+            0xFFF0000000000001, 0x7FFFFFFFFFFFFFFF]
+INF_BITS = [0x7FF0000000000000, 0xFFF0000000000000]
+
+
+def is_nan_bits(b):
+    return (b >> 52) & 0x7FF == 0x7FF and b & 0xFFFFFFFFFFFFF != 0
+
+
+def twin_bits(rng, b):
+    """VALUE CLASSES: a double of the same `==` / `almost_equal` / "both NaN" class as the double with
+    bit pattern `b`, but with ANOTHER bit pattern.  The signature hashes bytes, so a mutator that
+    decides "nothing changed" with a numeric comparison must be driven with exactly these values.
+      ±0.0                 `==`-equal, different bytes
+      NaN, other payload   neither `==` nor `!=`-stable: `x != x`
+      1 ulp / 1e-9 apart   equal for gene::operator== (almost_equal, relative 1e-5)"""
+    if b & 0x7FFFFFFFFFFFFFFF == 0:
+        return b ^ (1 << 63)
+    if is_nan_bits(b):
+        return rng.choice([x for x in NAN_BITS if x != b])
+    if (b >> 52) & 0x7FF == 0x7FF:          # ±inf has no twin: a NaN instead
+        return rng.choice(NAN_BITS)
+    k = rng.below(3)
+    t = b ^ 1 if k == 0 else (b + rng.between(2, 1 << 22) if k == 1 else b - rng.between(1, 1 << 22))
+    if t < 0 or t >> 63 != b >> 63 or (t >> 52) & 0x7FF == 0x7FF:
+        t = b ^ 1
+    return t
+
+
 def rnd_de(rng):
     """random double of moderate magnitude (differences and sums stay finite)"""
     b = rng.next()
@@ -329,6 +358,9 @@ class Run:
         elif not r["valid"]:
             self.violate("is_valid() is false after `%s`" % line, idx, {"kind": "invalid", "cls": cls, "op": op})
         self.obs.append((kind, r["content"], r["fresh"], idx))
+        if kind in ("ga", "de"):
+            c = r["content"].split()
+            self.state[kind][int(line.split()[2])] = {"n": int(c[1]), "v": [int(x) for x in c[2:]]}
         if r["sig"] != r["fresh"] and op != "ctor":
             # stop the cascade: an object whose cache is stale stays stale through copies
             t = line.split()
@@ -430,7 +462,31 @@ class Run:
                 s, d, b = rng.below(NM), rng.below(NM), rng.below(NM)
                 m = st["mep"][s]
                 op = rng.choice(["sig", "sig", "mutate", "mutate", "xover", "getblock", "replace", "replacebest",
-                                 "destroy", "cse", "copy", "assign", "iter", "load", "loadbad"])
+                                 "destroy", "destroy", "cse", "copy", "assign", "iter", "load", "loadbad",
+                                 "twinreplace", "twiniter"])
+                if op.startswith("twin"):
+                    # value classes: an ACTIVE parametric terminal gets a parameter that gene::operator==
+                    # cannot tell from the old one (±0.0, 1 ulp, 1e-9) or a NaN; signature cached first
+                    act = active_loci(sy, m)
+                    par = [l for l in act if sy.by_op[m["genes"][l[0] * m["cols"] + l[1]][0]]["param"]]
+                    if not par:
+                        op = "replace"
+                    else:
+                        if rng.chance(0.8):
+                            self.upd("mep", s, self.do("mep sig %d" % s, "i_mep", "signature"))
+                        l = rng.choice(par)
+                        g0 = m["genes"][l[0] * m["cols"] + l[1]]
+                        nb = rng.choice(NAN_BITS) if rng.chance(0.1) else twin_bits(rng, g0[1])
+                        g = (g0[0], nb, [])
+                        self.chk.count("valueclass:mep-%s" % ("nan" if is_nan_bits(nb) else "almost-equal"))
+                        if op == "twinreplace":
+                            dd = s if rng.chance(0.5) else d
+                            self.upd("mep", dd, self.do("mep replace %d %d %d %d %s" % (dd, s, l[0], l[1], gene_s(g)),
+                                                        "i_mep", "replace"))
+                        else:
+                            self.upd("mep", s, self.do("mep iter %d %d %s" % (s, act.index(l), gene_s(g)),
+                                                       "i_mep", "begin"))
+                        continue
                 if op == "sig":
                     self.upd("mep", s, self.do("mep sig %d" % s, "i_mep", "signature"))
                 elif op == "mutate":
@@ -448,7 +504,13 @@ class Run:
                     g = rnd_gene(sy, rng, m["best"][0], m["best"][1], m["rows"])
                     self.upd("mep", d, self.do("mep replacebest %d %d %s" % (d, s, gene_s(g)), "i_mep", "replace"))
                 elif op == "destroy":
-                    self.upd("mep", d, self.do("mep destroy %d %d %d" % (d, s, rng.below(m["rows"])), "i_mep", "destroy_block"))
+                    # boundary arguments: the root of the active code, its neighbours, first / last row
+                    row = rng.choice([m["best"][0], m["best"][0], min(m["best"][0] + 1, m["rows"] - 1),
+                                      max(m["best"][0] - 1, 0), 0, m["rows"] - 1, rng.below(m["rows"]),
+                                      rng.below(m["rows"])])
+                    if rng.chance(0.7):
+                        self.upd("mep", s, self.do("mep sig %d" % s, "i_mep", "signature"))
+                    self.upd("mep", d, self.do("mep destroy %d %d %d" % (d, s, row), "i_mep", "destroy_block"))
                 elif op == "cse":
                     self.upd("mep", d, self.do("mep cse %d %d" % (d, s), "i_mep", "cse"))
                 elif op == "copy":
@@ -471,12 +533,41 @@ class Run:
                 cls = "i_" + kind
                 s, d, b = rng.below(NS), rng.below(NS), rng.below(NS)
                 ops = ["sig", "sig", "set", "iter", "iterend", "xover", "copy", "load", "loadbad"]
-                ops += ["mutate", "mutate"] if kind == "ga" else ["assign", "assign"]
+                ops += ["mutate", "mutate"] if kind == "ga" else \
+                    ["assign", "assign", "twinset", "twiniter", "twinassign", "twinassign", "sameassign"]
                 op = rng.choice(ops)
                 val = (lambda: rng.between(-100, 100)) if kind == "ga" else \
-                      (lambda: rng.choice(special) if rng.chance(0.3) else rnd_de(rng))
+                      (lambda: rng.choice(special) if rng.chance(0.3) else
+                       (rng.choice(NAN_BITS + INF_BITS) if rng.chance(0.04) else rnd_de(rng)))
                 n = st[kind][s]["n"]
-                if op == "sig":
+                if op.startswith("twin") or op == "sameassign":
+                    # value classes: the new value is ==-equal (±0.0) / both NaN / 1 ulp away from the
+                    # value it replaces, the signature is (mostly) cached beforehand
+                    if rng.chance(0.8):
+                        self.do("de sig %d" % s, cls, "signature")
+                    cur = list(st[kind][s]["v"])
+                    zs = [i for i, x in enumerate(cur) if x & 0x7FFFFFFFFFFFFFFF == 0 or is_nan_bits(x)]
+                    if op == "sameassign":
+                        self.do("de assign %d %s" % (s, " ".join(str(x) for x in cur)), cls, "operator=")
+                        self.chk.count("valueclass:same")
+                    elif op == "twinassign":
+                        # only "equal" elements change when there are any (all of v == genome_ then)
+                        idx = [i for i in zs if rng.chance(0.7)] or (zs[:1] if zs else [rng.below(n)])
+                        for i in idx:
+                            cur[i] = twin_bits(rng, cur[i])
+                        self.do("de assign %d %s" % (s, " ".join(str(x) for x in cur)), cls, "operator=")
+                        self.chk.count("valueclass:%s" % ("eq-not-identical" if zs else "ulp"))
+                    else:
+                        i = rng.choice(zs) if zs and rng.chance(0.7) else rng.below(n)
+                        v = twin_bits(rng, cur[i])
+                        if op == "twinset":
+                            self.do("de set %d %d %d" % (s, i, v), cls, "operator[]")
+                        elif i == n - 1 and rng.chance(0.5):
+                            self.do("de iterend %d %d" % (s, v), cls, "end")
+                        else:
+                            self.do("de iter %d %d %d" % (s, i, v), cls, "begin")
+                        self.chk.count("valueclass:%s" % ("eq-not-identical" if i in zs else "ulp"))
+                elif op == "sig":
                     self.do("%s sig %d" % (kind, s), cls, "signature")
                 elif op == "set":
                     self.do("%s set %d %d %d" % (kind, s, rng.below(n), val()), cls, "operator[]")
@@ -528,7 +619,7 @@ class Run:
         if kind == "mep":
             self.state["mep"][slot] = parse_mep(c)
         elif kind in ("ga", "de"):
-            self.state[kind][slot] = {"n": int(c.split()[1])}
+            self.state[kind][slot] = {"n": int(c.split()[1]), "v": [int(x) for x in c.split()[2:]]}
         else:
             self.state[kind][slot] = {}
 
